@@ -8,6 +8,12 @@ BASE = ("go/types + go/ssa (x/tools v0.29.0) faithful IR; stdlib contracts as do
         "(DESIGN.md section 3); caller-supplied io.Reader/io.Writer obey their contracts")
 
 CHECKS = {
+ "C05": dict(level="other", ref="§4 C05",
+   text="Structural sufficient condition for termination and linear work/memory, decided from the SSA form of every function on the decode call tree: each loop (cycles = strongly connected components) is a range/counted loop over a loop-invariant bound, a loop in which every cycle reads a value of width>=1 through the sequential reader's guarded primitive and leaves on the sticky error (with the primitive's lemmas proven: no-op after an error, otherwise non-nil error or advance within len(data)), or a geometric/divisive counter loop; length-bounded loops are not nested; every make() is constant, the L-vbi-bounded frame size, or proven <= the bytes present; every append adds a constant number of elements; no recursion, no blocking primitive. Constant factors and wall-clock time are not decided.",
+   technique="static analysis: loop-shape classification on the SSA CFG + linear-inequality proofs of allocation sizes"),
+ "C19": dict(level="proof", ref="§4 C19",
+   text="Panic-freedom and termination of every String/Error/Dump/dump call tree (including the dry-run encoders used to print the size and fmt's reflective callees) for every receiver state: the C04 obligation generator and prover over the render roots; the one state dependency, CONNECT's 'will flag set implies will != nil', is proven as a representation invariant over every instruction of the package that can write either field (bit-level may-set analysis of flag writes; decode re-establishes it behind its own flag test); generated lookup tables are read from their init-time stores and checked monotone/in range; loops classified as in C05.",
+   technique="static analysis: obligation generation on go/ssa + abstract interpretation (linear inequalities, nilness, bit masks) + representation-invariant proof over all field writers"),
  "C04": dict(level="proof", ref="§4 C04",
    text="Panic-freedom of the whole decode call tree for all inputs: an obligation is generated from the SSA form for every instruction that can panic (index, slice, nil dereference, nil call, unchecked type assertion, negative make size, division, explicit panic, stdlib preconditions) in every function reachable from ReadPacket and every UnmarshalBinary/ReadFrom, and discharged by a local prover (linear facts from dominating branches with Fourier-Motzkin entailment, wrap-aware narrow arithmetic, nil facts, store-to-load forwarding under a type-based no-intervening-write analysis, callee summaries, invariants of the sequential reader proven over all its writers, a geometric-accumulator bound for the frame size, a post-condition lemma for the length-prefixed decoder, and 'field non-nil' requirements resolved at the sites where closures are put to use). ReadPacket's result shape is (non-nil,nil) xor (nil,non-nil). Undischarged = failure.",
    technique="static analysis: obligation generation on go/ssa + abstract interpretation (linear inequalities, nilness, available values) with inductive contracts"),
